@@ -519,6 +519,26 @@ def gen_func(rng, max_blocks=4, sig=None, genv=()):
     return ret, hexs(name), "|".join(pdesc) or "-", "/".join(bdesc)
 
 
+MD_NAMES = [b"dbg", b"tbaa", b"prof", b"llvm.loop", b"x", b"1a", b"7", b"a b", b"\\", b"!", b"range", b"q\"uote", b"\xff"]
+
+
+def attach(rng, func, ids, p=0.3):
+    """metadata attachments (`, !name !N`) on some instructions and terminators WITHOUT continuation lines of a function descriptor; `ids`: the IDs to refer to"""
+    ret, name, pdesc, bdesc = func
+    if bdesc == "-" or not ids:
+        return func
+    blocks = []
+    for b in bdesc.split("/"):
+        parts = b.split("^")
+        for k in range(1, len(parts)):
+            # (row 44, freeze: the grammar of the parser has no attachments on it — recorded finding C01-freeze-attachment-rejected)
+            if parts[k].count(":") == 2 and parts[k].split(":")[1] != "44" and rng.random() < p:
+                atts = ["%s=%d" % (rng.choice(MD_NAMES).hex(), rng.choice(ids)) for _ in range(rng.choice([1, 1, 1, 2, 3]))]
+                parts[k] += ":M" + "&".join(atts)
+        blocks.append("^".join(parts))
+    return ret, name, pdesc, "/".join(blocks)
+
+
 def mutants(rng, text):
     """single-point mutants of a printed function text (bytes): (kind, text)"""
     out = []
